@@ -47,7 +47,7 @@ CLAIMS = {
    "Merge kernel RowIDs.merge: result strictly ascending, at most limit elements, every element from one of the inputs, inputs unmodified. GroupBy paging, rowIterator and fragment row listing are not under contract.",
    TRUST, "contract-based deductive verification: loop invariants, SMT"),
  "C17": ("proof",
-   "Reducer laws at the contract level: ValCount.add is the componentwise sum; ValCount.smaller/larger return the extreme value with the summed count on ties (the property's Min/Max clause); RowIDs.merge as in C16. "
+   "Reducer laws at the contract level: ValCount.add is the componentwise sum; ValCount.smaller/larger return the extreme value with the summed count on ties (the property's Min/Max clause); RowIDs.merge as in C16. Nodes.Filter returns exactly the nodes other than the failed one (the list a failed node's shards are re-mapped over). "
    "mapReduce scheduling is not applicable to this technique.",
    TRUST, "contract-based deductive verification, SMT"),
  "C20": ("proof",
